@@ -229,6 +229,26 @@ func (c *Ctx) Incomplete(what string) {
 // Failed reports whether this execution already has a failure.
 func (c *Ctx) Failed() bool { return len(c.fails) > 0 }
 
+// Property is the id of the property the running check decides.
+func (c *Ctx) Property() string {
+	if c.st != nil {
+		return c.st.Property
+	}
+	return "?"
+}
+
+// ScenarioFamily is the first path element of the running scenario's name.
+func (c *Ctx) ScenarioFamily() string {
+	if c.scen == nil {
+		return "?"
+	}
+	n := c.scen.Name
+	if i := strings.Index(n, "/"); i > 0 {
+		n = n[:i]
+	}
+	return n
+}
+
 // Trivial marks this execution as trivial for the distinct_nontrivial count.
 func (c *Ctx) Trivial() { c.trivial = true }
 
@@ -339,6 +359,7 @@ type Stats struct {
 	WallS          float64          `json:"wall_s"`
 	Incomplete     []string         `json:"incomplete,omitempty"`
 	SelfCheck      int              `json:"determinism_selfchecks"`
+	Diverged       int64            `json:"diverged_executions,omitempty"`
 
 	seen     map[[16]byte]struct{}
 	violKeys map[string]int
@@ -480,7 +501,9 @@ func startWatchdog() {
 }
 
 func (e *explorer) newCtx(prefix []int, keepLog bool) *Ctx {
-	return &Ctx{lenient: e.lenient, bound: e.bound, visited: e.visited, pruneFrom: 1 << 60, Tier: e.cfg.Tier, Seed: e.cfg.Seed, prefix: prefix, keepLog: keepLog,
+	// (exploration is lenient too: an execution that does not fit the recorded
+	// prefix is handled in explore(), see there)
+	return &Ctx{lenient: true, bound: e.bound, visited: e.visited, pruneFrom: 1 << 60, Tier: e.cfg.Tier, Seed: e.cfg.Seed, prefix: prefix, keepLog: keepLog,
 		counters: e.st.Counters, st: e.st, scen: e.sc}
 }
 
@@ -574,7 +597,7 @@ func (e *explorer) sample(c *Ctx) {
 		"scenario": e.sc.Name, "params": e.sc.Params, "choices": compact(c.choices), "history": c.history, "trace": lg,
 	})
 	e.st.SelfCheck++
-	if lc.obs != c.obs && len(lc.fails) > 0 {
+	if (lc.obs != c.obs || lc.diverged) && len(lc.fails) > 0 {
 		// the same execution, repeated in the same process, fails: the code
 		// under test carried state over from the first run (a non-initial
 		// state of its package-level variables).  The failure is judged like
@@ -587,7 +610,7 @@ func (e *explorer) sample(c *Ctx) {
 		}
 		return
 	}
-	if lc.obs != c.obs {
+	if lc.obs != c.obs || lc.diverged {
 		fmt.Fprintf(os.Stderr, "MACHINERY: harness nondeterminism: same choices, different observations in %s choices=%v\n", e.sc.Name, c.choices)
 		os.Exit(3)
 	}
@@ -637,6 +660,25 @@ func (e *explorer) explore(prefix []int, prefixCost int) {
 		return
 	}
 	c := e.runOnce(prefix, false, nil)
+	if c.diverged {
+		// The execution did not offer the choices an earlier execution of the
+		// same prefix offered: something outside the explorer's control keeps
+		// state from one execution to the next (package-level state of the
+		// code under test: a cache, a lock left held, a lazily built table --
+		// or harness nondeterminism).  The execution is still a real execution
+		// of the code and is judged like any other (a failure must reproduce
+		// 5/5); but the tree below it cannot be enumerated, so the scenario is
+		// reported as not exhaustively explored.
+		e.st.Diverged++
+		if e.st.Exhaustive {
+			e.st.Exhaustive = false
+		}
+		if e.st.Diverged <= 3 {
+			e.st.Incomplete = append(e.st.Incomplete, fmt.Sprintf("%s: an execution did not replay the choice points of an earlier execution with the same prefix (state is kept across executions); its subtree was not expanded", e.sc.Name))
+		}
+		e.account(c, len(c.choices))
+		return
+	}
 	if prefixCost == e.bound || e.sc.NoIterate {
 		e.account(c, len(prefix))
 	}
